@@ -204,24 +204,19 @@ impl FunctionCompiler<'_> {
                 assert_ne!(items.len(), 0);
 
                 let item_ty = self.tys[loc.wrap()][items[0]];
-                let item_size = item_ty.size();
-                let item_stride = item_ty.stride();
+                let item_size = item_ty.size() as usize;
+                let item_stride = item_ty.stride() as usize;
 
-                let mut array = Vec::<u8>::with_capacity(item_stride as usize * items.len());
+                // all of these bytes end up in the object file, also the ones between the end
+                // of an item and the start of the next one, so they start out as zeros
+                let mut array = vec![0u8; item_stride * items.len()];
 
                 for (idx, item) in items.into_iter().enumerate() {
                     let item = self.expr_to_const_data(loc, item)?;
 
-                    unsafe {
-                        std::ptr::copy_nonoverlapping(
-                            item.as_ptr(),
-                            array.as_mut_ptr().add(idx * item_stride as usize),
-                            item_size as usize,
-                        );
-                    }
+                    let start = idx * item_stride;
+                    array[start..start + item_size].copy_from_slice(&item[..item_size]);
                 }
-
-                unsafe { array.set_len(array.capacity()) }
 
                 array.into()
             }
